@@ -39,7 +39,11 @@ func versionSx(v version.Version) Sx {
 func headerOf(s Sx) http.Header {
 	h := http.Header{}
 	for _, p := range s.L {
-		h.Add(string(p.L[0].B), string(p.L[1].B))
+		if len(p.L) == 3 { // verbatim key, as in a caller-built map literal
+			h[string(p.L[0].B)] = append(h[string(p.L[0].B)], string(p.L[1].B))
+		} else {
+			h.Add(string(p.L[0].B), string(p.L[1].B))
+		}
 	}
 	return h
 }
@@ -85,7 +89,11 @@ func exchangeInSx(e *sxg.Exchange) Sx {
 		out := []Sx{}
 		for _, k := range names {
 			for _, v := range h[k] {
-				out = append(out, L(B([]byte(k)), B([]byte(v))))
+				if http.CanonicalHeaderKey(k) != k {
+					out = append(out, L(B([]byte(k)), B([]byte(v)), Sym("raw")))
+				} else {
+					out = append(out, L(B([]byte(k)), B([]byte(v))))
+				}
 			}
 		}
 		return L(out...)
@@ -200,6 +208,28 @@ func init() {
 			return L(Sym("invalid"))
 		}
 		p, ok := e.Verify(time.Unix(a[1].I64(), a[2].I64()), fetcherOf(a[4]), discardLog)
+		return verdictSx(p, ok)
+	})
+	regOp("sxg_read_edit_verify", func(a []Sx) Sx {
+		e, err := sxg.ReadExchange(bytes.NewReader(a[0].B))
+		if err != nil {
+			return L(Sym("invalid"))
+		}
+		for _, ed := range a[1].L {
+			switch string(ed.L[0].B) {
+			case "status":
+				e.ResponseStatus = ed.L[1].Int()
+			case "addresp":
+				e.ResponseHeaders.Add(string(ed.L[1].B), string(ed.L[2].B))
+			case "addreq":
+				e.RequestHeaders.Add(string(ed.L[1].B), string(ed.L[2].B))
+			case "method":
+				e.RequestMethod = string(ed.L[1].B)
+			case "payload":
+				e.Payload = append([]byte{}, ed.L[1].B...)
+			}
+		}
+		p, ok := e.Verify(time.Unix(a[2].I64(), a[3].I64()), fetcherOf(a[5]), discardLog)
 		return verdictSx(p, ok)
 	})
 	regOp("bigendian", func(a []Sx) Sx {
